@@ -22,7 +22,8 @@ VARIABLES
   everNames,  \* history: every unique name ever handed out
   queue,      \* [names with owners -> Seq of [s, ar, dnq]]   head = primary owner
   rules,      \* [Slot -> Seq of parsed match rules] in order of addition
-  pend,       \* Seq of [caller, callee, ser]  pending replies, oldest first
+  pend,       \* Seq of [caller, callee, ser, born, orph]  pending replies, oldest first (born/orph: cfg.epoch
+              \* when recorded / when the callee went away, used only for the timing rules of the trace spec)
   mon,        \* [Slot -> Seq of rules] filters of monitors
   out         \* Seq of [to, m] : what the last action staged
 
@@ -60,7 +61,9 @@ E_UnknownInterface == S_org_freedesktop_DBus_Error_UnknownInterface
 E_NoReply == S_org_freedesktop_DBus_Error_NoReply
 E_NotSupported == S_org_freedesktop_DBus_Error_NotSupported
 
-DstOf(s) == IF cst[s] \in {"active", "monitor"} THEN uname[s] ELSE <<>>
+\* destination of the driver's replies: replies are made from the call, whose sender the bus stamped as
+\* ":not.active.yet" for a connection that has not said Hello (named: RepliesToUnregisteredCarryPlaceholder)
+DstOf(s) == IF cst[s] \in {"active", "monitor"} THEN uname[s] ELSE S_not_active_yet
 Reply(dst, rs, sig, args, cmp) == Msg(2, BUS, dst, 0, rs, <<>>, <<>>, <<>>, <<>>, sig, args, 1, 0, cmp)
 ErrReply(dst, rs, ename) == Msg(3, BUS, dst, 0, rs, <<>>, <<>>, <<>>, ename, SigS, <<>>, 1, 0, "errtext")
 BusSignal(dst, mem, sig, args) ==
@@ -86,7 +89,8 @@ PrimNames(qs, un, s) == IF s = NoSlot THEN {BUS} ELSE {un[s]} \cup {n \in DOMAIN
 HeldNames(qs, un, s) == IF s = NoSlot THEN {BUS} ELSE {un[s]} \cup {n \in DOMAIN qs : InQ(qs[n], s)}
 Flags(f) == [ar |-> (f % 2) = 1, re |-> ((f \div 2) % 2) = 1, dnq |-> ((f \div 4) % 2) = 1]
 Privileged(s) == uid[s] = 0 \/ uid[s] = cfg.busUid
-SeqOfSet(S) == CHOOSE q \in [1..Cardinality(S) -> S] : \A i, j \in 1..Cardinality(S) : i # j => q[i] # q[j]
+RECURSIVE SeqOfSet(_)
+SeqOfSet(S) == IF S = {} THEN <<>> ELSE LET x == CHOOSE y \in S : TRUE IN <<x>> \o SeqOfSet(S \ {x})
 Cred(s) == [uid |-> uid[s]]
 
 \* ------------------------------------------------------------------ routing building blocks
@@ -181,7 +185,11 @@ ClientClose(s) ==
 
 NumCompleted == Cardinality({x \in Slot : cst[x] \in {"active", "monitor"}})
 NumOfUser(u) == Cardinality({x \in Slot : cst[x] \in {"active", "monitor"} /\ uid[x] = u})
-CanTalk(s) == cst[s] \in {"incomplete", "active"} /\ ~dying[s]
+\* Messages a connection had already delivered to the daemon are still dispatched after its transport was closed
+\* (dbus_connection_close leaves the incoming queue alone; processing stops with the Disconnected message), so
+\* `dying` does not stop a connection from being served: how many of its messages were already read is the
+\* environment's business (BusTrace.TSkip).
+CanTalk(s) == cst[s] \in {"incomplete", "active"}
 
 \* ------------------------------------------------------------------ calls to the bus driver
 \* the method call as the daemon sees it after stamping the sender
@@ -407,7 +415,7 @@ Drop(s, order) ==
      \* caller gone: its slots vanish; callee gone: the slot is orphaned and expires "at once" (ExpirePending)
      /\ pend' = [i \in 1..Len(SelectSeq(pend, LAMBDA p : p.caller # s)) |->
                    LET p == SelectSeq(pend, LAMBDA x : x.caller # s)[i] IN
-                   IF p.callee = s THEN [p EXCEPT !.callee = NoSlot] ELSE p]
+                   IF p.callee = s THEN [p EXCEPT !.callee = NoSlot, !.orph = cfg.epoch] ELSE p]
      /\ uname' = [uname EXCEPT ![s] = <<>>]
      /\ out' = d.em
                \o (IF wasActive THEN OwnerChange(W1, uname[s], s, NoSlot) ELSE <<>>)
@@ -424,6 +432,9 @@ ExpirePending(i) ==
 \* ------------------------------------------------------------------ routed messages (bus/dispatch.c)
 Kill(s) == /\ dying' = [dying EXCEPT ![s] = TRUE]
            /\ UNCHANGED <<cfg, cst, uid, uname, everNames, queue, rules, pend, mon>>
+
+\* bytes that are not a valid message, or a message over max_message_size: the sender is disconnected, nothing else
+Corrupt(s) == /\ cst[s] # "absent" /\ Kill(s) /\ out' = <<>>
 
 \* the security gate for the addressed recipient (bus_context_check_security_policy with proposed = addressed):
 \* result [ok, err, pd] where pd is the pending-reply table afterwards (changes stay even when a later check
@@ -448,7 +459,7 @@ Gate(s, adr, m) ==
   ELSE IF ~wantsReply THEN [ok |-> TRUE, err |-> <<>>, pd |-> pd1]
   ELSE IF FindPend(pd1, s, adr, m.ser) # 0 THEN [ok |-> FALSE, err |-> E_AccessDenied, pd |-> pd1]
   ELSE IF CountPend(pd1, s) >= cfg.maxReplies THEN [ok |-> FALSE, err |-> E_LimitsExceeded, pd |-> pd1]
-  ELSE [ok |-> TRUE, err |-> <<>>, pd |-> Append(pd1, [caller |-> s, callee |-> adr, ser |-> m.ser])]
+  ELSE [ok |-> TRUE, err |-> <<>>, pd |-> Append(pd1, [caller |-> s, callee |-> adr, ser |-> m.ser, born |-> cfg.epoch, orph |-> 0])]
 
 \* rule-matched recipients of a client's message: each passes its own gate, refusals are silent
 RuleCopies(W, s, m, adr) ==
@@ -469,7 +480,7 @@ AutoStart(m) == ((m.fl \div 2) % 2) = 0
 Send(s, m0) ==
   LET m == [m0 EXCEPT !.snd = IF cst[s] = "active" THEN uname[s] ELSE S_not_active_yet, !.org = s]
       adr == IF m.dst = <<>> THEN NoSlot ELSE Resolve(queue, m.dst) IN
-  /\ cst[s] # "absent" /\ ~dying[s]
+  /\ cst[s] # "absent"
   /\ m.dst # BUS
   /\ IF cst[s] = "monitor" THEN Kill(s) /\ out' = <<>>                       \* MonitorSpeaks
      ELSE IF m.dst = <<>> /\ m.ty # 4 THEN
@@ -500,7 +511,7 @@ Send(s, m0) ==
 \* answers it without any transaction: the reply carries no SENDER at all, its DESTINATION is whatever SENDER
 \* value the client itself put in the header (none if it put none), and monitors never see call or reply.
 Dev_LocalReplyUnstamped(s, m0, fsnd) ==
-  /\ cst[s] \in {"incomplete", "active"} /\ ~dying[s]
+  /\ cst[s] \in {"incomplete", "active"}
   /\ m0.dst = <<>> /\ m0.ty = 1 /\ (m0.fl % 2) = 0
   /\ out' = IF m0.ifc = S_org_freedesktop_DBus_Peer /\ m0.mem = S_Ping /\ m0.sig = <<>>
             THEN <<To(s, Msg(2, <<>>, fsnd, 0, m0.ser, <<>>, <<>>, <<>>, <<>>, <<>>, <<>>, 1, 0, "exact"))>>
